@@ -15,6 +15,7 @@ global size_of usize == 8;
 #[verifier::external_body] pub struct CharIdx { _p: u8 }
 //@include preamble/lex_model.rs
 //@include spec/lex_specs.rs
+//@include spec/lit_specs.rs
 
 // R3c: string constants (message text is dropped)
 #[verifier::external_body] fn verif_lit_xstr() -> Xstr { unimplemented!() }
@@ -118,6 +119,34 @@ pub open spec fn lit_err(s: Seq<char>, k0: int, k1: int) -> bool {
     s[k0] != '|' && !is_open_quote(s[k0]) && !is_ws(s[k0]) && num_start(s, k0) ==>
         (if num_is_real(s, k0, k1) { num_has_prefix(s, k0) || real_lit_val(num_digits(s, k0, k1)) is None }
          else { int_lit_val(num_digits(s, k0, k1), num_radix(s, k0)) is None })
+}
+
+// C16, last clause, for bit-strings: what the printer writes (`printed_bits`, the postcondition of the `Cell::Bitstr` arm of
+// `fmt::Debug for Cell`, verified in unit bitstr) is read back by `Lex::next` (`lit_ok`) as ONE literal token that ends
+// with the printed text and denotes exactly the printed bits.  Lemma over the two contracts.
+proof fn lemma_print_read_bits(s: Seq<char>, out: Seq<char>, before: Seq<char>, bits: Seq<bool>, k1: int, c: Cell)
+    requires
+        printed_bits(out, before, bits),
+        s.len() >= out.len(), s.subrange(0, out.len() as int) == out,
+        before.len() < k1 <= s.len(),
+        lit_ok(s, before.len() as int, k1, Tok::Literal(c)),
+    ensures
+        k1 == out.len(), c is Bitstr, xbits(c->Bitstr_0) == bits,
+{
+    let o = before.len() as int;
+    let n = out.len() as int;
+    assert forall|k: int| 0 <= k < n implies s[k] == out[k] by { assert(s.subrange(0, n)[k] == s[k]); }
+    assert(s[o] == '|');
+    assert(hexval('|') is None && !is_ws('|'));
+    if k1 - 1 < n - 1 {
+        assert(hexval(out[k1 - 1]) is Some || is_ws(out[k1 - 1]) || out[k1 - 1] == '.' || out[k1 - 1] == 'x');
+        assert(false);
+    }
+    if k1 - 1 > n - 1 {
+        assert(hexval(s[n - 1]) is Some || is_ws(s[n - 1]) || s[n - 1] == '.' || s[n - 1] == 'x');
+        assert(false);
+    }
+    lemma_lit_bits_ext(s, out, o + 1, n - 1);
 }
 
 impl Lex {
